@@ -7,12 +7,15 @@ CONFIG = {
     "gens": ["gen_id62"],          # harness/cmd/gen_id62 -> coq/gen/Id62Gen.v
     "level": "proof",
     "trusted_base": [
-        KERNEL, TRANSLATOR + " (Id62Gen.v: PatternString literal, references from fields.go and schema_from_proto.go)", CORR, HARNESS,
+        KERNEL, TRANSLATOR + " (Id62Gen.v, all of it read by a lemma: the PatternString literal; the number of references to id62.PatternString in fields.go / schema_from_proto.go and of literal copies of its text (C20_pattern_single_source); the reader's wellKnownStringPatterns table with keys and values resolved (C20_reader_recognises_exactly_the_pattern); the package-level variables of lib/id62, those NewHash or a package function it calls touches, and the calls it makes (C20_new_hash_stateless_in_code) - a go/ast reading of one file, no alias analysis: state reached through a method of another package's object would not be seen)", CORR, HARNESS,
+        "purity of NewHash is BY CONSTRUCTION in the model (a Gallina function cannot depend on earlier calls; C20_new_hash_history_independent threads an explicit package state through a call sequence only to say so); that the Go function has no such dependence rests on C20_new_hash_stateless_in_code (syntactic: no package-level variable, no goroutine, only calls on the digest it creates) and on the hash-history stream (sequences of colliding tuples, every call compared with SHA-1 of the concatenation)",
         "modelled, not verified: math/big SetBytes/Text(62)/SetString(62)/Bytes, fmt %022s padding, regexp for the one pattern form ^[ranges]{n}$, crypto/sha1 (lib/Sha1.v, checked against the FIPS vector and against crypto/sha1 by correspondence)",
     ],
     "assumptions": [
         "model/Id62.v is the hand-written model of lib/id62/uuid62.go; it is tied to the code by the correspondence stream of this run and by the regenerated pattern string",
         "identifiers are byte lists of length 16 with every byte < 256 (wf_id), strings are byte lists",
+        "Parse is not a validator and the property does not ask it to be one: it accepts an optional sign, any number of base62 digits (leading zeros, fewer or more than 22 characters) of magnitude < 2^128 and drops the sign (C20_parse_accepted_language, C20_parse_is_not_a_validator: Parse(\"-1\") = Parse(\"+1\") = Parse(\"1\")); the property text constrains Parse on renderings (round trip), on all strings (no panic) and on values that do not fit (rejected, with 'value' = the magnitude big.Int.Bytes returns) - all proved; README/docs make no claim about Parse; on strings of the published shape, which is what a key:id62 validation rule admits, Parse is the exact inverse of String (C20_parse_inverse_on_pattern). Judged not a defect of C20; noted for the maintainers (a negative number silently becomes its absolute value)",
+        "New() / NewString() (uuid.NewV7 through github.com/google/uuid) are outside the statement and not modelled: any 16 bytes render and round-trip (C20_full quantifies over all of them); UUIDString / Base64String likewise",
     ],
     "mult_search": 4,
     "refuted": [],
@@ -20,7 +23,7 @@ CONFIG = {
 }
 
 MANIFEST = {
-    "text": "Theorems over a Gallina model of base62String/parseBase62/Pattern/NewHash, for all 2^128 identifiers and all strings: render is total and yields 22 characters matching the pattern string read from the Go source; parse(render b) = b, hence injectivity; parse never panics, returns exactly the denoted magnitude, and rejects magnitudes >= 2^128; NewHash depends only on the concatenation of its arguments. The model is tied to the code by re-reading PatternString on every run and by evaluating model and implementation on the same identifiers/strings, on histories of NewHash calls over tuples that collide under naive joining (so a memo keyed by a non-injective join shows up as history dependence), and on the validation patterns the real compiler emits for key:id62 fields in every qualifier form (plain, required, optional, array, map, list rules), each of which must equal the regenerated pattern string.",
+    "text": "C20_full (one conjunction, closed): theorems over a Gallina model of base62String/parseBase62/Pattern/NewHash, for all 2^128 identifiers and all strings: render is total and yields 22 characters matching the pattern string read from the Go source; parse(render b) = b, hence injectivity; parse never panics, returns exactly the denoted magnitude, and rejects magnitudes >= 2^128; NewHash depends only on the concatenation of its arguments and, as a step of a process with the package state threaded through, not on earlier calls (by construction of the model; the Go function is shown to touch no package-level variable by a regenerated table). Also: the exact language Parse accepts (it is not a validator: signs, any length, leading zeros), Parse as exact inverse of String on strings of the published shape, compiler and reader both take the pattern from id62.PatternString with no literal copy, and the reader's regenerated table maps exactly the published pattern to format id62 (its model is compared with the real reader on every compiled key:id62 field). The model is tied to the code by re-reading PatternString on every run and by evaluating model and implementation on the same identifiers/strings, on histories of NewHash calls over tuples that collide under naive joining (so a memo keyed by a non-injective join shows up as history dependence), and on the validation patterns the real compiler emits for key:id62 fields in every qualifier form (plain, required, optional, array, map, list rules), each of which must equal the regenerated pattern string.",
     "note": "Trusted: Coq kernel; the translator; the correspondence harness; math/big, fmt padding, regexp and crypto/sha1 are modelled, not verified. All C20 theorems are closed under the global context (no axioms).",
     "technique": "Rocq/Coq proof (radix round-trip by induction) + regenerated pattern table + in-Coq differential correspondence",
 }
